@@ -134,6 +134,10 @@ def program_rewrites(program):
     # one rule with a top-level disjunction = several rules
     if s.body and len(s.body) == 1 and s.body[0][0] == 'or' and not s.is_agg() and not s.distinct:
       out.append(('|=rules', with_stmt(i, [s.replace(body=b) for b in s.body[0][1]])))
+      # the same rules, not adjacent: rules of other predicates (or a helper fact) written between them
+      parts = [s.replace(body=b) for b in s.body[0][1]]
+      filler = Rule('Zfill9', ((0, N(1)),))
+      out.append(('|=rules-interleaved', Program(stmts[:i] + [parts[0], filler] + stmts[i + 1:] + parts[1:], program.engine, program.type_checking)))
   # several rules with equal heads = one rule with |
   for i, s in enumerate(stmts):
     if isinstance(s, Rule) and s.body and i + 1 < len(stmts):
